@@ -22,6 +22,8 @@ PATS = ['^carbon\\.', '^servers\\.', '\\.count$', 'cpu', '.*', '^a\\.', 'web[0-9
         # patterns for tagged series and values containing the characters INI dialects use for comments
         # character classes that depend on Unicode awareness
         '^servers\\.\\w+\\.cpu', '\\.shard\\d+\\.', '^\\w+\\.count$', '\\bload\\b', '^[^\\W\\d]+\\.',
+        # anchored and unanchored branches in one pattern
+        '^stats\\.|\\.count$', '^internal\\.|\\.user$', '^a\\.|cpu', '(^servers|mem)', '^(?:x|y)|load$',
         # patterns that match without consuming a character
         '^', '$', '^(?!carbon\\.)', '^(?!.*\\.count$)', '\\b', 'x*', '(?=.*cpu)', '',
         ';env=prod(;|$)', ';type=counter', '^app\\..*;dc=', 'x ;y', 'a #b', '#hash', '[;#]', 'cpu ; not a comment']
